@@ -51,9 +51,14 @@ pub enum Src {
 pub struct Case {
     pub src: Src,
     pub drive: Drive,
+    /// 0: new decoder; k > 0: the decoder has first decoded an 11-byte frame that declares a window
+    /// of 2^(19+k) bytes (1..=16 MiB) - the bounds are about the frame being decoded, not about the
+    /// largest frame the decoder has ever seen
+    #[serde(default)]
+    pub warm: u8,
 }
 
-fn overlong_spec(o: &OverLong) -> FrameSpec {
+pub fn overlong_spec(o: &OverLong) -> FrameSpec {
     let mut blocks = vec![];
     match o.prefix % 3 {
         1 => blocks.push(BlockSpec::Raw { data: (0..16u8).collect() }),
@@ -115,12 +120,12 @@ fn overlong_spec(o: &OverLong) -> FrameSpec {
         window_desc: o.window_desc,
         fcs_bytes: 0,
         checksum: false,
-        dict_id_bytes: 0,
+        dict_id_bytes: 0, zero_dict_id: false,
         blocks,
     }
 }
 
-fn overlong_strategy() -> impl Strategy<Value = OverLong> {
+pub fn overlong_strategy() -> impl Strategy<Value = OverLong> {
     let target = prop_oneof![
         4 => (-3i32..=3).prop_map(|d| (BLOCK as i32 + d) as u32),
         2 => 65_537u32..=131_072,
@@ -164,7 +169,7 @@ fn case_strategy(tier: crate::engine::Tier) -> impl Strategy<Value = Case> {
         1 => frame_case_strategy(tier).prop_map(Src::Valid),
         1 => overlong_strategy().prop_map(Src::OverLong),
     ];
-    (src, drive_strategy()).prop_map(|(src, drive)| Case { src, drive })
+    (src, drive_strategy(), prop_oneof![3 => Just(0u8), 2 => 1u8..=5]).prop_map(|(src, drive, warm)| Case { src, drive, warm })
 }
 
 /// Incremental comparison of delivered bytes with the expected content (nothing is accumulated, so
@@ -195,7 +200,7 @@ struct Observed {
     max_held_streaming: usize,
 }
 
-fn drive(frame: &[u8], expect: &[u8], window: u64, nblocks: usize, d: &Drive) -> Observed {
+fn drive(frame: &[u8], expect: &[u8], window: u64, nblocks: usize, d: &Drive, warm: u8) -> Observed {
     let mut obs = Observed {
         result: Ok(()),
         max_excess: 0,
@@ -209,6 +214,15 @@ fn drive(frame: &[u8], expect: &[u8], window: u64, nblocks: usize, d: &Drive) ->
     let mut dec = FrameDecoder::new();
     if window > ruzstd::decoding::DEFAULT_MAX_WINDOW_SIZE {
         dec.set_max_window_size(window);
+    }
+    if warm > 0 {
+        // magic, descriptor 0, window descriptor (exponent 9 + warm), one raw last block of one byte
+        let f = [0x28, 0xB5, 0x2F, 0xFD, 0x00, (9 + warm.min(5)) << 3, 0x09, 0x00, 0x00, 0x41];
+        let mut out = [0u8; 4];
+        if !matches!(dec.decode_all(&f, &mut out), Ok(1)) {
+            obs.result = Err("the warm-up frame was not decoded".into());
+            return obs;
+        }
     }
     let res: Result<(), String> = (|| {
         match d {
@@ -356,8 +370,11 @@ pub fn check(case: &Case, ctx: &mut CaseCtx) -> CaseResult {
         Drive::FromTo { .. } => "drive:decode_from_to",
     });
     let meter = Meter::start();
-    let obs = drive(&frame, &content, window, nblocks, &case.drive);
+    let warm = if matches!(case.drive, Drive::FromTo { .. }) { 0 } else { case.warm.min(5) }; // decode_from_to starts frames only on a new decoder
+    let obs = drive(&frame, &content, window, nblocks, &case.drive, warm);
     let peak = meter.peak();
+    let warm_window: usize = if warm > 0 { 1usize << (19 + warm) } else { 0 };
+    ctx.feat_if(warm > 0, "decoder:warm_(frame_with_a_larger_window_decoded_before)");
     if over {
         ctx.feat("overlong:must_reject");
         ensure!(obs.result.is_err(), "overlong_block_accepted",
@@ -379,7 +396,8 @@ pub fn check(case: &Case, ctx: &mut CaseCtx) -> CaseResult {
             "streaming decoder holds {} bytes after a read of {read} with window {window}", obs.max_held_streaming);
     }
     // (3) peak heap: catches amplification by orders of magnitude
-    let budget = 4 * (window as usize + obs.max_requested + BLOCK) + (8 << 20)
+    // (a reused decoder keeps the buffer of the largest window it has served: that allocation is the earlier frame's)
+    let budget = 4 * (window as usize + obs.max_requested + BLOCK) + (8 << 20) + 2 * warm_window
         + match &case.drive { Drive::DecodeAll { spare } => content.len().min(8 << 20) + *spare as usize, Drive::FromTo { target, .. } => *target as usize, Drive::Streaming { read } => *read as usize, _ => 0 }
         + if matches!(case.drive, Drive::Blocks { drain: false, .. }) || matches!(case.drive, Drive::Blocks { strat: 0, .. }) { 3 * content.len().min(nblocks * BLOCK) } else { 0 };
     ensure!(peak <= budget, "peak_heap_exceeds_budget", "peak live heap {peak} > budget {budget} (window {window}, requested {}, frame {} bytes); drive {:?}", obs.max_requested, frame.len(), case.drive);
@@ -393,7 +411,7 @@ pub fn check(case: &Case, ctx: &mut CaseCtx) -> CaseResult {
 }
 
 pub fn run(eng: &Engine) {
-    eng.set_rule("valid frames (three sources) and synthesized frames with one over-long compressed block (regenerated size around and far above 128 KiB, built from a few literals plus max-length matches, or from 20-bit RLE/raw literals), each driven by decode_blocks (All/UptoBlocks/UptoBytes, with or without draining), StreamingDecoder reads, decode_all, decode_from_to; non-trivial = a block regenerating > 64 KiB, or valid content exceeding window + 128 KiB; distinct by (frame, drive) hash");
+    eng.set_rule("valid frames (three sources) and synthesized frames with one over-long compressed block (regenerated size around and far above 128 KiB, built from a few literals plus max-length matches, or from 20-bit RLE/raw literals), each driven by decode_blocks (All/UptoBlocks/UptoBytes, with or without draining), StreamingDecoder reads, decode_all, decode_from_to, on a new decoder or on one that has decoded a tiny frame declaring a 1..16 MiB window before; non-trivial = a block regenerating > 64 KiB, or valid content exceeding window + 128 KiB; distinct by (frame, drive) hash");
     eng.assume("held data observed through the hook FrameDecoder::verif_buffer_len and the per-thread counting allocator");
     eng.assume("over-long blocks capped at 2000 sequences so a missing guard cannot exhaust the sandbox");
     let n = eng.tier.pick(12_000, 200_000);
